@@ -146,6 +146,8 @@ class Adapter(EnvAdapter):
             # sensor ranges 0 (the agent sees only its own cell) and 3 (a 7 x 7 field, larger than the small floor), 3 shelf rows
             _c("r1c3h2a2_s0q2_t40", 1, 3, 2, 2, 0, 2, 40, episodes=6, max_steps=44, policies=polm, probe_every=2),
             _c("r1c3h2a2_s3q3_t40", 1, 3, 2, 2, 3, 3, 40, episodes=6, max_steps=44, policies=polm, probe_every=2),
+            # more than 127 shelves (3 x 3 clusters of 2 x 8)
+            _c("r3c3h8a3_s1q9_t30", 3, 3, 8, 3, 1, 9, 30, episodes=3, max_steps=34, policies=polm, probe_every=6, probe_cap=30),
             _c("r3c3h2a3_s3q6_t60", 3, 3, 2, 3, 3, 6, 60, episodes=5, max_steps=64, policies=polm, probe_every=3, probe_cap=40),
             _c("r2c3h3a5_s1q6_t40", 2, 3, 3, 5, 1, 6, 40, episodes=5, max_steps=44, policies=polm, probe_every=3, probe_cap=40),
             _c("r1c3h1a6_s1q2_gen", 1, 3, 1, 6, 1, 2, 5, episodes=400, max_steps=0, policies=["random"], props=["C10"]),
